@@ -89,7 +89,7 @@ class bound_scalar_array(base_array):
             return
         if self._max_len and len(self) + len(values) > self._max_len:
             raise ProphyError("exceeded array limit")
-        self._values.extend(map(self._TYPE._check, values))
+        self._values.extend(list(map(self._TYPE._check, values)))
 
     def remove(self, elem):
         self._values.remove(elem)
